@@ -574,6 +574,45 @@ func (ex *Exec) builtin(st *State, fr *Frame, ins ssa.Instruction, b *ssa.Builti
 			ex.setResult(st, fr, dst, ex.lenOf(st, args[0], c.Args[0].Type()))
 		}
 	case "append":
+		// appending to a byte slice with spare capacity writes into the SAME backing array (visible through every
+		// other slice of it); otherwise a fresh array is allocated. Both outcomes are explored when the capacity does
+		// not decide it. (Other element types: always a fresh array - see dropped_by_translation.)
+		if s, ok := args[0].(*SliceV); ok && isByte(s.Elem) && s.Obj != nil && s.Cap != nil {
+			var lb *Term
+			switch y := args[1].(type) {
+			case *SliceV:
+				lb = y.Len
+			case *Term:
+				if y.Sort == SB {
+					lb = ex.G.BLen(y)
+				}
+			}
+			if lb != nil && !(lb.IsConstInt() && lb.I.Sign() == 0) {
+				fits := Le(Add(s.Len, lb), s.Cap)
+				switch st.Decide(fits) {
+				case 1:
+					if res, ok := ex.appendInPlace(st, s, args[1], lb); ok {
+						ex.setResult(st, fr, dst, res)
+						ex.event(st, &Event{Callee: "slice.append", Args: args, Results: []Value{res}, Instr: ins, Fn: fr.Fn, Kind: "append"})
+						return
+					}
+				case 0:
+					other := ex.fork(st)
+					other.Assume(fits)
+					if !other.Dead {
+						if res, ok := ex.appendInPlace(other, s, args[1], lb); ok {
+							of := other.Top()
+							if dst != nil {
+								of.Locals[dst] = res
+							}
+							ex.event(other, &Event{Callee: "slice.append", Args: args, Results: []Value{res}, Instr: ins, Fn: of.Fn, Kind: "append"})
+							ex.push(other)
+						}
+					}
+					st.Assume(Not(fits))
+				}
+			}
+		}
 		res := ex.appendOp(st, args[0], args[1], c.Args[0].Type())
 		ex.setResult(st, fr, dst, res)
 		// "slice.append": a0 = the slice appended to, a1 = the appended elements (a slice), ar0 = the result
@@ -683,6 +722,33 @@ func (ex *Exec) appendOp(st *State, a, b Value, t types.Type) Value {
 	capT := ex.G.FreshInt("cap", types.Typ[types.Int])
 	ex.G.facts[capT.Name] = append(ex.G.facts[capT.Name], Ge(capT, newLen))
 	return &SliceV{Nil: TFalse, Obj: obj, Off: IntC(0), Len: newLen, Cap: capT, Elem: elem}
+}
+
+// appendInPlace writes the appended bytes behind the slice into its own backing array.
+func (ex *Exec) appendInPlace(st *State, s *SliceV, b Value, lb *Term) (Value, bool) {
+	var cb *Term
+	switch y := b.(type) {
+	case *SliceV:
+		cb = ex.sliceBytes(st, y)
+	case *Term:
+		cb = y
+	}
+	if cb == nil {
+		return nil, false
+	}
+	root := ex.objVal(st, s.Obj)
+	back, ok := ex.readPath(st, root, s.Path, s.Obj.Typ).(*Term)
+	if !ok || back.Sort != SB {
+		return nil, false
+	}
+	total := ex.G.BLen(back)
+	at := Add(s.Off, s.Len)
+	end := Add(at, lb)
+	nb := ex.G.BCat(ex.G.BCat(ex.G.BSub(back, IntC(0), at), cb), ex.G.BSub(back, end, Sub(total, end)))
+	ex.G.lens[nb.Key()] = total
+	st.Heap[s.Obj] = ex.writePath(st, root, s.Path, nb, s.Obj.Typ)
+	ex.markWritten(st, s.Obj)
+	return &SliceV{Nil: TFalse, Obj: s.Obj, Path: s.Path, Off: s.Off, Len: Add(s.Len, lb), Cap: s.Cap, Elem: s.Elem}, true
 }
 
 func (ex *Exec) sliceElem(st *State, s *SliceV, i *Term) Value {
